@@ -43,6 +43,53 @@ def ref_ber_exp(x, ccs, bs):
     return False
 
 
+def ref_sampler_z(mu, sigma, sigmin, stream):
+    """Algorithm 15 on an explicit byte stream (9 + 1 + 7 bytes per trip); returns (z, bytes consumed) or None if the stream runs out"""
+    import math
+    isigma = 1.0 / sigma
+    dss = 0.5 * isigma * isigma
+    s = math.floor(mu); r = mu - s
+    ccs = sigmin * isigma
+    pos = 0
+    while True:
+        if pos + 17 > len(stream):
+            return None
+        u = int.from_bytes(bytes(stream[pos:pos + 9]), 'big'); pos += 9
+        z0 = sum(1 for t in RCDT if u < t)
+        b = stream[pos] & 1; pos += 1
+        z = b + (2 * b - 1) * z0
+        x = (z - r) * (z - r) * dss - (z0 * z0) * (1.0 / (2.0 * 1.8205 * 1.8205))
+        bs = stream[pos:pos + 7]; pos += 7
+        acc = ref_ber_exp(x, ccs, bs)
+        if acc is None:
+            acc = False
+        if acc:
+            return z + int(s), pos
+
+
+def sampler_z_battery(rep, what):
+    """native sampler_z against the reference on pseudo-random streams (used only to confirm a solver finding)"""
+    import random
+    rnd = random.Random(20240917)
+    for k in range(60):
+        mu = rnd.uniform(-300, 300) if k % 3 else float(rnd.randint(-50, 50))
+        sigmin = rnd.choice([1.2778336969128337, 1.298280334344292])
+        sigma = sigmin if k % 5 == 0 else rnd.uniform(sigmin, 1.8205)
+        stream = [rnd.randrange(256) for _ in range(17 * 12)]
+        ref = ref_sampler_z(mu, sigma, sigmin, stream)
+        if ref is None:
+            continue
+        dev, rel = replay.both(['sampler_z', fhex(mu), fhex(sigma), fhex(sigmin), bytes(stream).hex()])
+        rep.replayed += 1
+        want = '%d consumed=%d exhausted=false' % ref
+        if dev != want or rel != want:
+            rep.violation('sampler_z:differs-from-spec', '%s: sampler_z(mu=%r, sigma=%r, sigma_min=%r, stream=%s...) = %s / %s, SamplerZ of the specification gives %s'
+                          % (what, mu, sigma, sigmin, bytes(stream[:20]).hex(), dev, rel, want),
+                          {'replay_request': ['sampler_z', fhex(mu), fhex(sigma), fhex(sigmin), bytes(stream).hex()], 'expected': want, 'dev': dev, 'release': rel})
+            return True
+    return False
+
+
 def decode_kani(rep, hname, r):
     tests, out = kani.playback_values(hname)
     reproduced = False
@@ -80,7 +127,7 @@ def decode_kani(rep, hname, r):
 
 def check(tier):
     rep = Report('C09', tier)
-    rep.functions = ['samplerz::base_sampler', 'samplerz::ber_exp (totality)', 'samplerz::approx_exp', 'samplerz::sampler_z (one loop trip)']
+    rep.functions = ['samplerz::base_sampler', 'samplerz::ber_exp (totality and comparison logic)', 'samplerz::approx_exp', 'samplerz::sampler_z (loop body, up to two trips)']
     rep.bounds = ['base_sampler: all 2^72 inputs (exhaustive by solver)', 'ber_exp totality: all x in [0, 1024), ccs in [1/2, 1], all 7-byte strings',
                   'approx_exp / ber_exp logic / sampler_z: see parts (engine M)']
     rep.outside = ['termination of sampler_z for EVERY byte stream (an adversarial stream can reject forever) and the distributional statement: not decidable by a solver',
